@@ -90,6 +90,14 @@ pub fn sweep_pool(reduced: bool) -> Vec<V> {
         V::s(""), V::s("a"), V::s("abc"), V::s("héllo"), V::s("("), V::s("1"), V::s("UTC"), V::s("1h"), V::s("kg"),
         V::Bytes(vec![]), V::Bytes(vec![0xff, 0xfe]),
         V::List(vec![]), V::List(vec![V::Int(1), V::Int(2)]), V::List(vec![V::s("b"), V::s("a")]), V::List(vec![V::List(vec![V::Int(1)])]),
+        // lists longer than 20 elements switch std's sort to the algorithm that checks the comparator
+        V::List((0..25).map(|k| if k == 7 { V::F(f64::NAN) } else { V::F(k as f64) }).collect()),
+        V::List((0..25).map(|k| if k % 5 == 0 { V::s("s") } else if k % 3 == 0 { V::Null } else { V::Int(25 - k) }).collect()),
+        V::List({
+            let mut l = vec![V::Int(9007199254740993), V::F(9007199254740992.0)];
+            l.extend((0..22).map(|_| V::Int(9007199254740992)));
+            l
+        }),
         V::Map(BTreeMap::new()), V::Map(m),
         V::Null, V::Bool(true), V::Bool(false), V::Type("int".into()),
         V::Ts(0, 0), V::Ts(TS_MAX_S, 999_999_999), V::Ts(TS_MIN_S, 0),
@@ -345,6 +353,63 @@ fn check_child(label: &str, class: &str, sig: String, spec: &Value, profile: &st
 
 fn run(opts: &Opts, acc: &mut Acc) {
     let dbg = opts.is_dbg();
+    // hand-written seeds: shapes that earlier findings came from (kept so that they stay covered
+    // whatever the generators' distribution becomes)
+    let long_nan: String = (0..25).map(|k| if k == 7 { "0.0/0.0".to_string() } else { format!("{}.0", k) }).collect::<Vec<_>>().join(", ");
+    let seeds: Vec<String> = vec![
+        "[1/0] != [1]".into(),
+        "[1/0] == [1]".into(),
+        "[x/0] != [x]".into(),
+        "{'a': 1/0} != {'a': 1}".into(),
+        "[[x/0]] != [[1]]".into(),
+        "[1/0] in [[1/0]]".into(),
+        "[x/0].sort()".into(),
+        format!("[{}].sort()", long_nan),
+        format!("[{}, null].sort()", long_nan),
+        format!("max({})", long_nan),
+        "match x { case dyn(x): 1, case type: 2, case null_type: 3 }".into(),
+        "string(duration(9223372036854775, 807000000))".into(),
+        "f'{f'{f'{x}'}'}'".into(),
+        "x.y.z().w[0]".into(),
+        "m.size".into(),
+        "m.map".into(),
+        "{}.has".into(),
+        "1.f".into(),
+        "-9223372036854775808".into(),
+        "9223372036854775808".into(),
+        "0x".into(),
+        "0xg".into(),
+        "1e".into(),
+        "1e+".into(),
+        "'\\".into(),
+        "b'\\x".into(),
+        "f'{".into(),
+        "f'{}'".into(),
+        "f'}'".into(),
+        "[1, 2][9223372036854775807]".into(),
+        "[1, 2][-9223372036854775807 - 1]".into(),
+        "'abc'.splitAt(-9223372036854775807 - 1)".into(),
+        "timestamp(9223372036854775807)".into(),
+        "duration(9223372036854775807)".into(),
+        "timestamp(-9223372036854775807 - 1).getFullYear('US/Pacific')".into(),
+        "uomConvert(1.0e308, 'kg', 'mg')".into(),
+        "pow(0, -1)".into(),
+        "zip([1], 2)".into(),
+        "zip()".into(),
+        "min()".into(),
+    ];
+    let sb = vec![
+        ("x".to_string(), V::Int(1)),
+        ("m".to_string(), V::Map([("a".to_string(), V::Int(1))].into_iter().collect())),
+    ];
+    for s in &seeds {
+        for f in check_total(s, &sb, "seeds", "seed", "c01:seed", true, acc) {
+            acc.fail(f);
+        }
+        for f in check_total(s, &[], "seeds", "seed", "c01:seed", true, acc) {
+            acc.fail(f);
+        }
+    }
     // (d) built-in sweep
     let names = callable_names();
     let pool = sweep_pool(false);
